@@ -104,13 +104,16 @@ func callsTo(f *ssa.Function, names ...string) []ssa.CallInstruction {
 	return out
 }
 
-// siteKeys gives each call a structural key "<fn>/<callee>#<ordinal in source order>".
+// siteKeys gives each call a structural key "<fn>/<callee>[<constant string arguments>]#<ordinal>": the ordinal
+// counts calls with the same callee and the same constant arguments in source-position order, so that moving
+// other calls of the same callee into (or out of) a helper does not renumber this one.
 func siteKeys(f *ssa.Function, calls []ssa.CallInstruction) map[ssa.CallInstruction]string {
-	all := callsIn(f)
+	all := append([]ssa.CallInstruction{}, callsIn(f)...)
+	sort.SliceStable(all, func(i, j int) bool { return all[i].Pos() < all[j].Pos() })
 	ord := map[string]int{}
 	keys := map[ssa.CallInstruction]string{}
 	for _, c := range all {
-		n := calleeName(c)
+		n := calleeName(c) + callArgSig(c)
 		ord[n]++
 		keys[c] = fmt.Sprintf("%s/%s#%d", fnName(f), n, ord[n])
 	}
@@ -119,6 +122,36 @@ func siteKeys(f *ssa.Function, calls []ssa.CallInstruction) map[ssa.CallInstruct
 		out[c] = keys[c]
 	}
 	return out
+}
+
+// callArgSig: the constant string arguments of a call (attribute keys, header names), or a marker for a key that
+// comes from an attribute listing.
+func callArgSig(c ssa.CallInstruction) string {
+	var parts []string
+	for _, a := range c.Common().Args {
+		if s, ok := constString(a); ok {
+			if s == "" {
+				continue
+			}
+			if len(s) > 40 {
+				s = s[:40]
+			}
+			parts = append(parts, s)
+			continue
+		}
+		if typeStr(a.Type()) == "string" {
+			for _, rt := range Origins(a, nil) {
+				if rt.Kind == "call" && strings.HasSuffix(rt.Desc, ".ListAttributes") {
+					parts = append(parts, "<listed>")
+					break
+				}
+			}
+		}
+	}
+	if len(parts) == 0 {
+		return ""
+	}
+	return "[" + strings.Join(parts, ",") + "]"
 }
 
 // ---- error results and success edges ------------------------------------
@@ -189,7 +222,12 @@ func isNilConst(v ssa.Value) bool {
 // carries an error to its test: Phis whose operands are all that value,
 // and store/load through a cell (Alloc) within one block when the variable
 // is address-taken (captured by a closure).
-func aliasesOf(v ssa.Value) []ssa.Value {
+func aliasesOf(v ssa.Value) []ssa.Value { return aliasesOfX(v, false) }
+
+// aliasesOfX: with allowNil, a phi whose other edges are nil constants also counts (the merged result of an
+// inlined helper that returns either the value or nil): on the non-nil edge of a test of that phi the value is
+// the alias. Not valid for reasoning about the nil edge.
+func aliasesOfX(v ssa.Value, allowNil bool) []ssa.Value {
 	out := []ssa.Value{v}
 	seen := map[ssa.Value]bool{v: true}
 	for i := 0; i < len(out); i++ {
@@ -203,7 +241,7 @@ func aliasesOf(v ssa.Value) []ssa.Value {
 			case *ssa.Phi:
 				all := true
 				for _, e := range r.Edges {
-					if !seen[e] {
+					if !seen[e] && !(allowNil && isNilConst(e)) {
 						all = false
 					}
 				}
@@ -248,7 +286,11 @@ func aliasesOf(v ssa.Value) []ssa.Value {
 // nilTestEdges: for value v (an error or pointer), the CFG edges on which v is
 // known nil (nilEdges) and known non-nil (nonNilEdges), from `if v ==/!= nil`.
 func nilTestEdges(v ssa.Value) (nilEdges, nonNilEdges []edge) {
+	strict := map[ssa.Value]bool{}
 	for _, a := range aliasesOf(v) {
+		strict[a] = true
+	}
+	for _, a := range aliasesOfX(v, true) {
 		refs := a.Referrers()
 		if refs == nil {
 			continue
@@ -264,7 +306,9 @@ func nilTestEdges(v ssa.Value) (nilEdges, nonNilEdges []edge) {
 			for _, br := range condBranches(b) {
 				// br.trueSucc: edge taken when b is true
 				if (b.Op == token.EQL) == br.whenTrue {
-					nilEdges = append(nilEdges, br.e)
+					if strict[a] {
+						nilEdges = append(nilEdges, br.e)
+					}
 				} else {
 					nonNilEdges = append(nonNilEdges, br.e)
 				}
@@ -333,9 +377,9 @@ func reachable(f *ssa.Function, from *ssa.BasicBlock, cut []edge) map[*ssa.Basic
 	if from == nil {
 		from = f.Blocks[0]
 	}
-	type st struct{ b, via *ssa.BasicBlock }
+	type st struct{ b, via, via2, via3 *ssa.BasicBlock }
 	done := map[st]bool{}
-	work := []st{{from, nil}}
+	work := []st{{from, nil, nil, nil}}
 	done[work[0]] = true
 	seen[from] = true
 	for len(work) > 0 {
@@ -344,7 +388,7 @@ func reachable(f *ssa.Function, from *ssa.BasicBlock, cut []edge) map[*ssa.Basic
 		b := cur.b
 		okT, okF := true, true
 		if cur.via != nil {
-			okT, okF = feasibleSuccs(b, cur.via)
+			okT, okF = feasibleSuccsH(b, []*ssa.BasicBlock{cur.via, cur.via2, cur.via3})
 		}
 		for i, s := range b.Succs {
 			if cutset[edge{b, i}] {
@@ -353,7 +397,11 @@ func reachable(f *ssa.Function, from *ssa.BasicBlock, cut []edge) map[*ssa.Basic
 			if len(b.Succs) == 2 && ((i == 0 && !okT) || (i == 1 && !okF)) {
 				continue
 			}
-			n := st{s, b}
+			n := st{s, b, cur.via, cur.via2}
+			// history matters only while the blocks in between just merge values (phis and a jump)
+			if !passThrough(b) {
+				n.via2, n.via3 = nil, nil
+			}
 			if !done[n] {
 				done[n] = true
 				seen[s] = true
@@ -415,7 +463,12 @@ func testedValue(cond ssa.Value) (base ssa.Value, pos bool) {
 }
 
 // truthiness: 1 = known non-nil/true, -1 = known nil/false, 0 = unknown; `at` is the block the value flows out of.
-func truthiness(v ssa.Value, at *ssa.BasicBlock) int {
+func truthiness(v ssa.Value, at *ssa.BasicBlock) int { return truthinessD(v, at, 0) }
+
+func truthinessD(v ssa.Value, at *ssa.BasicBlock, depth int) int {
+	if depth > 4 {
+		return 0
+	}
 	switch x := v.(type) {
 	case *ssa.Const:
 		if x.Value == nil {
@@ -434,6 +487,47 @@ func truthiness(v ssa.Value, at *ssa.BasicBlock) int {
 		switch calleeName(x) {
 		case "fmt.Errorf", "errors.New":
 			return 1
+		}
+		// a function of the module all of whose returns are non-nil errors (error constructors)
+		if g := x.Call.StaticCallee(); g != nil && len(g.Blocks) > 0 && g.Signature.Results().Len() == 1 {
+			all := true
+			n := 0
+			for _, b := range g.Blocks {
+				if len(b.Instrs) == 0 {
+					continue
+				}
+				if ret, ok := b.Instrs[len(b.Instrs)-1].(*ssa.Return); ok {
+					n++
+					if _, isMI := ret.Results[0].(*ssa.MakeInterface); !isMI {
+						all = false
+					}
+				}
+			}
+			if all && n > 0 {
+				return 1
+			}
+		}
+	case *ssa.Phi:
+		// every incoming value has the same known truthiness
+		if len(x.Edges) == len(x.Block().Preds) && len(x.Edges) > 0 {
+			t0 := 0
+			for i, e := range x.Edges {
+				if e == v {
+					return 0
+				}
+				var t int
+				switch ev := e.(type) {
+				case *ssa.Const, *ssa.MakeInterface, *ssa.Call:
+					t = truthinessD(ev, nil, depth+1)
+				default:
+					t = truthinessD(e, x.Block().Preds[i], depth+1)
+				}
+				if t == 0 || (t0 != 0 && t != t0) {
+					return 0
+				}
+				t0 = t
+			}
+			return t0
 		}
 	}
 	// decided by the test that guards the single edge into `at`
@@ -455,14 +549,89 @@ func truthiness(v ssa.Value, at *ssa.BasicBlock) int {
 	return 0
 }
 
-// feasibleSuccs: which successors of b can be taken when b was entered from via.
+// passThrough: a block that only merges values and jumps on (phis + one jump): the seam of an inlined return.
+func passThrough(b *ssa.BasicBlock) bool {
+	if len(b.Succs) != 1 {
+		return false
+	}
+	for i, in := range b.Instrs {
+		switch in.(type) {
+		case *ssa.Phi:
+		case *ssa.Jump:
+			if i != len(b.Instrs)-1 {
+				return false
+			}
+		default:
+			return false
+		}
+	}
+	return true
+}
+
+// resolveThrough: the value v (a phi edge taken when entering from hist[0]) followed back through phis of
+// pass-through blocks along the path history; returns the value and the block it flows out of.
+func resolveThrough(v ssa.Value, hist []*ssa.BasicBlock) (ssa.Value, *ssa.BasicBlock) {
+	at := hist[0]
+	for i := 0; i+1 < len(hist); i++ {
+		phi, ok := v.(*ssa.Phi)
+		if !ok || phi.Block() != hist[i] || hist[i+1] == nil || !passThrough(hist[i]) {
+			break
+		}
+		idx, n := -1, 0
+		for k, p := range hist[i].Preds {
+			if p == hist[i+1] {
+				idx = k
+				n++
+			}
+		}
+		if idx < 0 || n != 1 || idx >= len(phi.Edges) {
+			break
+		}
+		v = phi.Edges[idx]
+		at = hist[i+1]
+	}
+	return v, at
+}
+
 func feasibleSuccs(b, via *ssa.BasicBlock) (onTrue, onFalse bool) {
+	return feasibleSuccsH(b, []*ssa.BasicBlock{via, nil, nil})
+}
+
+// feasibleSuccsH: which successors of b can be taken when b was entered along the path ... hist[1] -> hist[0] -> b.
+func feasibleSuccsH(b *ssa.BasicBlock, hist []*ssa.BasicBlock) (onTrue, onFalse bool) {
+	via := hist[0]
 	if len(b.Instrs) == 0 || len(b.Succs) != 2 {
 		return true, true
 	}
 	ifi, ok := b.Instrs[len(b.Instrs)-1].(*ssa.If)
 	if !ok {
 		return true, true
+	}
+	// an integer comparison that is decided by the value a phi of this block takes on the entering edge
+	// (the first test of a range loop over a table of known, non-zero length is `0 < len`: the loop is entered)
+	if bo, isBO := ifi.Cond.(*ssa.BinOp); isBO {
+		if x, okx := evalIntOnEdge(bo.X, b, via, 0); okx {
+			if y, oky := evalIntOnEdge(bo.Y, b, via, 0); oky {
+				var res, known bool
+				switch bo.Op {
+				case token.LSS:
+					res, known = x < y, true
+				case token.LEQ:
+					res, known = x <= y, true
+				case token.GTR:
+					res, known = x > y, true
+				case token.GEQ:
+					res, known = x >= y, true
+				case token.EQL:
+					res, known = x == y, true
+				case token.NEQ:
+					res, known = x != y, true
+				}
+				if known {
+					return res, !res
+				}
+			}
+		}
 	}
 	base, pos := testedValue(ifi.Cond)
 	phi, ok := base.(*ssa.Phi)
@@ -480,7 +649,8 @@ func feasibleSuccs(b, via *ssa.BasicBlock) (onTrue, onFalse bool) {
 	if idx < 0 || n != 1 || idx >= len(phi.Edges) {
 		return true, true
 	}
-	t := truthiness(phi.Edges[idx], via)
+	ev, at := resolveThrough(phi.Edges[idx], hist)
+	t := truthiness(ev, at)
 	if t == 0 {
 		return true, true
 	}
@@ -1157,6 +1327,7 @@ type condEdge struct {
 	fails   edge
 	isEqNeq bool
 	binop   *ssa.BinOp
+	viaPhi  bool // cond was reached through a phi of boolean constants and this value: only one side is exact
 }
 
 func condEdgesOf(f *ssa.Function) []condEdge {
@@ -1171,6 +1342,7 @@ func condEdgesOf(f *ssa.Function) []condEdge {
 		}
 		c := ifi.Cond
 		pos := true
+		viaPhi := false
 		for hops := 0; hops < 4; hops++ {
 			if u, ok := c.(*ssa.UnOp); ok && u.Op == token.NOT {
 				c = u.X
@@ -1181,9 +1353,35 @@ func condEdgesOf(f *ssa.Function) []condEdge {
 				c = fw
 				continue
 			}
+			// a boolean merged from constants and one computed value (the result of an inlined predicate that
+			// returns false early and `a == b` otherwise): on the side the constants exclude, the condition is
+			// the computed value
+			if phi, ok := c.(*ssa.Phi); ok {
+				var other ssa.Value
+				n, allFalse, allTrue := 0, true, true
+				for _, e := range phi.Edges {
+					if k, isC := e.(*ssa.Const); isC && k.Value != nil && k.Value.Kind() == constant.Bool {
+						if constant.BoolVal(k.Value) {
+							allFalse = false
+						} else {
+							allTrue = false
+						}
+						continue
+					}
+					other = e
+					n++
+				}
+				if n == 1 && len(phi.Edges) > 1 && (allFalse || allTrue) {
+					// allFalse: phi true  => other true (exact on the holds side)
+					// allTrue:  phi false => other false (exact on the fails side)
+					c = other
+					viaPhi = true
+					continue
+				}
+			}
 			break
 		}
-		ce := condEdge{ifi: ifi, cond: c}
+		ce := condEdge{ifi: ifi, cond: c, viaPhi: viaPhi}
 		if bo, ok := c.(*ssa.BinOp); ok {
 			ce.binop = bo
 			if bo.Op == token.NEQ {
@@ -1559,6 +1757,16 @@ func stringSet(p *Program, v ssa.Value) ([]string, bool) {
 									n++
 									elems(st.Val)
 								}
+								// a package-level array is initialised element by element
+								if ia, isIA := in.(*ssa.IndexAddr); isIA && ia.X == ssa.Value(g) {
+									for _, st := range storesTo(ia) {
+										if !strings.HasPrefix(f.Name(), "init") {
+											ok = false
+										}
+										n++
+										walk(st.Val)
+									}
+								}
 							}
 						}
 					}
@@ -1873,4 +2081,101 @@ func forwardFieldLoad(v ssa.Value) ssa.Value {
 		}
 	}
 	return store.Val
+}
+
+// evalIntOnEdge: the integer value of v in block b when b was entered from via, if it is determined by constants,
+// by the entering edge of a phi of b, and by the lengths of arrays / literal-backed slices.
+func evalIntOnEdge(v ssa.Value, b, via *ssa.BasicBlock, depth int) (int64, bool) {
+	if depth > 6 {
+		return 0, false
+	}
+	switch x := v.(type) {
+	case *ssa.Const:
+		if x.Value != nil && x.Value.Kind() == constant.Int {
+			if n, ok := constant.Int64Val(x.Value); ok {
+				return n, true
+			}
+		}
+	case *ssa.Phi:
+		if x.Block() != b {
+			return 0, false
+		}
+		idx, n := -1, 0
+		for i, p := range b.Preds {
+			if p == via {
+				idx = i
+				n++
+			}
+		}
+		if idx < 0 || n != 1 || idx >= len(x.Edges) {
+			return 0, false
+		}
+		if c, ok := x.Edges[idx].(*ssa.Const); ok && c.Value != nil && c.Value.Kind() == constant.Int {
+			if n, ok := constant.Int64Val(c.Value); ok {
+				return n, true
+			}
+		}
+	case *ssa.BinOp:
+		if x.Op == token.ADD || x.Op == token.SUB {
+			l, okl := evalIntOnEdge(x.X, b, via, depth+1)
+			r, okr := evalIntOnEdge(x.Y, b, via, depth+1)
+			if okl && okr {
+				if x.Op == token.ADD {
+					return l + r, true
+				}
+				return l - r, true
+			}
+		}
+	case *ssa.Call:
+		if bi, ok := x.Call.Value.(*ssa.Builtin); ok && bi.Name() == "len" && len(x.Call.Args) == 1 {
+			switch a := x.Call.Args[0].(type) {
+			case *ssa.Slice:
+				if a.Low == nil && a.High == nil && a.Max == nil {
+					if pt, ok := a.X.Type().Underlying().(*types.Pointer); ok {
+						if at, ok := pt.Elem().Underlying().(*types.Array); ok {
+							return at.Len(), true
+						}
+					}
+				}
+			case *ssa.Const:
+				if a.Value != nil && a.Value.Kind() == constant.String {
+					return int64(len(constant.StringVal(a.Value))), true
+				}
+			}
+		}
+	}
+	return 0, false
+}
+
+// reachedIn: the return site is reached given the set of reachable blocks: for a value entering through a phi,
+// the block it flows out of must be reachable and the value must flow on to the return.
+func (s retSite) reachedIn(reach map[*ssa.BasicBlock]bool) bool {
+	if s.pred == nil {
+		return reach[s.ret.Block()]
+	}
+	return reach[s.pred] && reach[s.ret.Block()] && flowsToReturn(s.ret.Parent(), s, nil)
+}
+
+type valueLeaf struct {
+	val  ssa.Value
+	from *ssa.BasicBlock // the block the value flows out of (the use's block for a non-phi value)
+}
+
+// valueLeaves splits a value that is a phi (transitively) into the values that flow in on each edge.
+func valueLeaves(v ssa.Value, at *ssa.BasicBlock) []valueLeaf {
+	var out []valueLeaf
+	seen := map[*ssa.Phi]bool{}
+	var rec func(v ssa.Value, from *ssa.BasicBlock, depth int)
+	rec = func(v ssa.Value, from *ssa.BasicBlock, depth int) {
+		if phi, ok := v.(*ssa.Phi); ok && depth < 5 && !seen[phi] && len(phi.Edges) == len(phi.Block().Preds) {
+			seen[phi] = true
+			for i, e := range phi.Edges {
+				rec(e, phi.Block().Preds[i], depth+1)
+			}
+			return
+		}
+		out = append(out, valueLeaf{v, from})
+	}
+	rec(v, at, 0)
+	return out
 }
